@@ -51,6 +51,16 @@ def scenarios(wd):
     b64data = b" ".join(enc(b"This prog", i) for i in range(3)) + b" " + b" ".join(wide(enc(b"This prog", i)) for i in range(3)) + b" " + enc(b"2nd text", 1)
     S["base64"] = ["compiler 0", "add 0 - " + yv.hx(b'rule b { strings: $a = "This prog" base64 base64wide $b = "2nd text" base64 condition: #a == 6 and #b == 1 }'),
                    "getrules 0 0", "cdestroy 0", "scanner 0 0", "data 1 " + yv.hx(b64data), "scan 0 1 mem - - -", "sdestroy 0", "rdestroy 0"]
+    # module FUNCTIONS (a returned object is copied for the VM) called one after the other, in a loop and before `matches`: small enough
+    # for every allocation of the scan to be failed in the quick tier
+    S["modcalls"] = ["compiler 0", "cdefine 0 s ext 6161626262",
+                     "add 0 - " + yv.hx(b'import "math"\nimport "string"\n'
+                                        b'rule f1 { condition: math.abs(-1) == 1 or string.length("ab") != 2 }\n'          # a failed first call is followed by another call
+                                        b'rule f2 { condition: math.to_string(5) == "5" or math.max(1, 2) != 2 or ext matches /zz/ }\n'
+                                        b'rule f3 { condition: for all i in (1..3) : ( math.min(i, 9) == i ) }\n'          # ... by the next iteration
+                                        b'rule f4 { condition: string.to_int("7") == 7 or ext matches /a+b+c/ }\n'          # ... by `matches`
+                                        b'rule f5 { condition: math.abs(-1) == 1 and string.length("ab") == 2 and math.max(1, 2) == 2 }'),
+                     "getrules 0 0", "cdestroy 0", "scanner 0 0", "data 1 " + yv.hx(b"some data"), "scan 0 1 mem - - -", "scan 0 1 mem - - -", "sdestroy 0", "rdestroy 0"]
     S["manyrules"] = ["compiler 0", "add 0 - " + yv.hx("\n".join('rule r%d : t%d { meta: i = %d strings: $a = "K%dQ" $b = { 4B %02X ?? 51 } condition: $a or $b }' % (i, i, i, i, i) for i in range(40)).encode()),
                       "getrules 0 0", "cdestroy 0", "scanner 0 0", "data 1 " + yv.hx(b"K7Q K\x05zQ K39Q"), "scan 0 1 mem - - -", "sdestroy 0", "rdestroy 0"]
     return S
@@ -127,7 +137,8 @@ def run_chunk(exe, name, body, warm, chunk, wd, idx, kf):
                 records.append({"kind": "apiop", "op": o["op"], "ret": o["ret"], "normal": bops[i]["ret"], "errors": o["errors"], "fault": o["fault"], "allowed": [1]})
                 owners.append((name, k, s, o["ev"], i, stack))
             # a failure that every operation absorbed (all results as in the fault-free run) must not change what the scans report
-            absorbed = len(ops) == len(bops) and all((not o["skipped"]) and o["ev"] == b_["ev"] and o["ret"] == b_["ret"] for o, b_ in zip(ops, bops))
+            core = lambda L_: [x for x in L_ if x["ev"] not in ("Init", "Finalize")]      # (the last iteration of a script also sees the final yr_finalize)
+            absorbed = len(core(ops)) == len(core(bops)) and all((not o["skipped"]) and o["ev"] == b_["ev"] and o["ret"] == b_["ret"] for o, b_ in zip(core(ops), core(bops)))
             same = (ops[0].get("results") == bops[0].get("results")) if ops and bops else True
             records.append({"kind": "apirun", "health": health or "none", "health_normal": body["_bhealth"] or "none", "heap_delta": heap - heap_prev,
                             "absorbed": absorbed, "same_results": same})
@@ -190,7 +201,8 @@ def c16(res, tier, seed):
         elif tier != "quick" and N > CAP:
             ks = sorted(set(r.sample(ks, CAP) + list(range(1, 200)) + list(range(N - 200, N + 1))))
         exhaustive[name] = len(ks) == N
-        plan = [(k, s) for k in ks for s in (0, 1)] if tier != "quick" else [(k, k % 2 if k > 11 else 0) for k in ks] + [(k, 1) for k in ks[:11]]
+        # quick tier: scenarios of up to 800 allocations get every k both as a single and as a persisting failure, larger ones alternate
+        plan = [(k, s) for k in ks for s in (0, 1)] if (tier != "quick" or N <= 800) else [(k, k % 2 if k > 11 else 0) for k in ks] + [(k, 1) for k in ks[:11]]
         for ci in range(0, len(plan), 40):
             jobs.append((name, warm, plan[ci:ci + 40], bops, bhealth))
     def work(j):
@@ -245,7 +257,7 @@ def c16(res, tier, seed):
     res.sample({"scenario": "strings", "script": S["strings"][:4], "allocations": res.cov["parts"].get("allocs_strings")})
     res.level = "fault_enumeration"
     res.cov["exhaustive"] = tier != "quick" and all(exhaustive.values())
-    res.cov["rule"] = ("10 scenarios (strings of every kind incl. chains; base64 / base64wide strings; 7 modules on a PE; externals at 3 levels; nested includes / namespaces / tags / metas; save+load via file "
+    res.cov["rule"] = ("11 scenarios (strings of every kind incl. chains; base64 / base64wide strings; chains of module function calls; 7 modules on a PE; externals at 3 levels; nested includes / namespaces / tags / metas; save+load via file "
                        "and stream; block iterator with not-ready, abort, hashing; suspended scans abandoned and followed by new scans; heavy regexes + matches; 40 rules). For each: every k in 1..N (N = allocations of the scenario; "
                        "quick: every k up to 800 allocations, else 400 sampled + first 11 + last 9, alternating single / sticky; thorough: every k up to %d allocations, else %d sampled + 200 at both ends), single and sticky failure; each operation "
                        "judged by ApiLifecycle!OpOK, each run by RunOK; distinct = (scenario, k, mode)" % (CAP, CAP))
